@@ -5,7 +5,7 @@
    both are run against gmars on every run (hook kinds 20 / 21 and whole programs,
    with goroutine counts before and after). *)
 From GM Require Import Base Text Token Lexer Scanner ExprSpec ExprEval ForExpand Parser Compile Sim
-     C05Lexer C05Expander.
+     C05Lexer C05Expander C05Fuel.
 Open Scope N_scope.
 
 (* the property at full strength, on the model: assembling never runs out of fuel (fuel is linear in
@@ -38,7 +38,17 @@ Theorem C05_expander_clean_partial :
 Proof. exact for_expand_clean. Qed.
 Print Assumptions C05_expander_clean_partial.
 
-(* missing: that the fuel of the expander pass (4*|tokens|+8), of the symbol scanner, of the parser and of
-   the EQU graph / substitution loops always suffices (C05_full_statement).  A model run that exhausts its
+(* proved, part 3: on every closed token stream (which is what the lexer delivers, part 1) a pass of the
+   expander ends within its 4*|tokens|+8 state functions - a measure argument over the 12 state functions -
+   provided the evaluation of FOR counts does not run out of ITS fuel (EQU graph walk and substitution) *)
+Theorem C05_expander_ends_partial :
+  forall toks symbols,
+    closed_stream toks -> (forall e, expand_and_evaluate e symbols <> None) ->
+    exists r, for_expand toks symbols = Some r.
+Proof. exact for_expand_ends. Qed.
+Print Assumptions C05_expander_ends_partial.
+
+(* missing: that the fuel of the EQU graph walk / substitution loops, of the symbol scanner and of the parser
+   always suffices (C05_full_statement).  A model run that exhausts its
    fuel answers COutOfFuel, which the correspondence reports as a disagreement with gmars, so the gap is
    covered by differential testing only. *)
